@@ -1,5 +1,5 @@
 //! unit: u03b
-//! properties: C03 C14 C02
+//! properties: C03 C14 C02 C10
 //! note: process_onion_failure_inner: what the sender learns from a decoded failure -- a failure that did not come from the final node always blames a node or a channel next to the node that sent it (so the retry avoids it), and the payment is reported as failed permanently only on the final node's word
 //! trusted: R15 (deep slice): the classification block of process_onion_failure_inner (from reading the code's debug field to the FailureLearnings value) verbatim as a function of (error_code, is_from_final_non_blinded_node, route_hop, failing_route_hop, err_packet); peeling the failure onion, the HMAC test and attribution-data handling before it are dropped and not claimed here (hold times: unit u14b)
 //! trusted: env: LocalHTLCFailureReason is a three-variant skeleton (the two variants the block names + Other(code)); its predicates is_badonion / is_node / is_permanent / is_temporary / get_onion_debug_field are external_body answering uninterpreted functions of the code (any code table), is_recipient_failure unconstrained; ErrorHop / RouteHop / TrampolineHop / FailureLearnings are the function-local types re-declared (ErrorHop::{pubkey, short_channel_id} external_body with the bodies' meaning); NetworkUpdate is extracted; PublicKey opaque Copy; R3: log statements removed; R8: `v.get(a..b)` on the failure message -> get_range (Some iff a <= b <= len, then the bytes a..b), `u16::from_be_bytes(s.try_into().expect(..))` -> be16 (unconstrained value)
